@@ -194,4 +194,61 @@ theorem lastUse_snoc (ops : List Op) (op : Op) (k) :
 theorem lastUse_le (ops : List Op) (k) : lastUse ops k ≤ ops.length := by
   simp [lastUse]
 
+/-- A key that is not tracked can only become tracked again through an `admit` of that key. -/
+theorem retracked_only_by_admit {σ} (step : σ → Op → σ) (tr : σ → List (Nat × Nat)) (I : σ → Prop)
+    (hI : ∀ s op, I s → I (step s op))
+    (hstep : ∀ s op x, I s → x ∈ keys (tr (step s op)) → x ∈ keys (tr s) ∨ ∃ c, op = .admit x c)
+    {k : Nat} : ∀ (ops : List Op) {s : σ}, I s → k ∉ keys (tr s) →
+      k ∈ keys (tr (ops.foldl step s)) → ∃ c, Op.admit k c ∈ ops := by
+  intro ops
+  induction ops with
+  | nil => intro s _ hk hin; exact absurd hin hk
+  | cons op ops ih =>
+    intro s hs hk hin
+    by_cases hk' : k ∈ keys (tr (step s op))
+    · rcases hstep s op k hs hk' with h | ⟨c, rfl⟩
+      · exact absurd h hk
+      · exact ⟨c, by simp⟩
+    · obtain ⟨c, hc⟩ := ih (hI s op hs) hk' hin
+      exact ⟨c, List.mem_cons_of_mem _ hc⟩
+
+theorem AdmitOk.mem_keys_imp {t t' : List (Nat × Nat)} {k : Nat} {v : List Nat} (h : AdmitOk t t' k v)
+    {x : Nat} (hx : x ∈ keys t') : x ∈ keys t ∨ x = k := by
+  by_cases hxk : x = k
+  · exact Or.inr hxk
+  · obtain ⟨c, hc⟩ := mem_keys.1 hx
+    exact Or.inl (mem_keys_of_mem ((h.others (x, c) hxk).1 hc).1)
+
+theorem RemoveOk.mem_keys_imp {t t' : List (Nat × Nat)} {k : Nat} (h : RemoveOk t t' k)
+    {x : Nat} (hx : x ∈ keys t') : x ∈ keys t := by
+  obtain ⟨c, hc⟩ := mem_keys.1 hx
+  exact mem_keys_of_mem ((h (x, c)).1 hc).1
+
+theorem EvictSound.mem_keys_imp {t t' : List (Nat × Nat)} {vs : List Nat} {f : Nat}
+    (h : EvictSound t t' vs f) {x : Nat} (hx : x ∈ keys t') : x ∈ keys t := by
+  obtain ⟨c, hc⟩ := mem_keys.1 hx
+  exact mem_keys_of_mem ((h.kept (x, c)).1 hc).1
+
+/-- assembling the per-op facts into "only `admit x` can start tracking `x`" -/
+theorem tracks_only_on_admit_of {t : List (Nat × Nat)} {op : Op} {t' : List (Nat × Nat)} {x : Nat}
+    (hadmit : ∀ k c, op = .admit k c → ∃ v, AdmitOk t t' k v)
+    (haccess : ∀ k c, op = .access k c → AccessOk t t' k)
+    (hremove : ∀ k, op = .remove k → RemoveOk t t' k)
+    (hevict : ∀ n p, op = .evict n p → ∃ vs f, EvictSound t t' vs f ∨ t' = t)
+    (hclear : op = .clear → t' = [])
+    (hx : x ∈ keys t') : x ∈ keys t ∨ ∃ c, op = .admit x c := by
+  cases op with
+  | admit k c =>
+    obtain ⟨v, hv⟩ := hadmit k c rfl
+    rcases hv.mem_keys_imp hx with h | rfl
+    · exact Or.inl h
+    · exact Or.inr ⟨c, rfl⟩
+  | access k c => exact Or.inl (((haccess k c rfl).mem_keys x).1 hx)
+  | remove k => exact Or.inl ((hremove k rfl).mem_keys_imp hx)
+  | evict n p =>
+    obtain ⟨vs, f, h | h⟩ := hevict n p rfl
+    · exact Or.inl (h.mem_keys_imp hx)
+    · rw [h] at hx; exact Or.inl hx
+  | clear => rw [hclear rfl] at hx; simp at hx
+
 end Fv.Cache.Policy
